@@ -551,20 +551,62 @@ def run_sweep(ctx, case):
     opts = {'disp': False, 'maxiter': 40, 'fatol': 1e-10, 'line_search': str(rng.choice(['armijo', 'wolfe']))}
     steps = []
     compared = 0
+    # every other sweep is ALSO continued on the System a PRISM object carries (PRISM.sys of the previous step): a System
+    # object like any other, reachable through a documented attribute
+    cont = None
+    cont_diam_edit = False
+    follow = bool(case['seed'] % 2 == 0)
     for step in range(int(case['nsteps']) + 1):
         if step > 0:
             kind = str(rng.choice(EDITS))
+            if cont is not None:
+                state, sp_before = copy.deepcopy(rng.bit_generator.state), copy.deepcopy(sp)
             steps.append(apply_edit(rng, s, sp, kind))
+            if cont is not None:
+                rng2 = np.random.default_rng(0)
+                rng2.bit_generator.state = state
+                apply_edit(rng2, cont, sp_before, kind)              # the same edit, decided from the same random state
+                cont_diam_edit |= (kind == 'diameter')
         where = 'sweep step %d after edits %s' % (step, steps)
         out = []
-        for which, system in (('reused', s), ('fresh', G.build(sp))):
+        for which, system in (('reused', s), ('fresh', G.build(sp))) + ((('continued', cont),) if cont is not None else ()):
             try:
                 with np.errstate(all='ignore'):
                     p = system.solve(method='krylov', options=dict(opts))
                 out.append((prism_arrays(p), bool(p.minimize_result.success), None))
+                if which == 'reused' and follow:
+                    nxt = p.sys
             except G.SOLVE_ERRORS as e:
                 fs = core.innermost_repo_frame(e.__traceback__)
                 out.append((None, False, '%s@%s' % (type(e).__name__, fs.name if fs else '?')))
+                if which == 'reused':
+                    nxt = None
+        if cont is not None:
+            (c_, sc_, ec_), (b_, sb_, eb_) = out[2], out[1]
+            ctx.hook('sweep.continued_on_prism_sys')
+            derived = any(v.get('sigma') is None and v['t'] in ('HS', 'HCLJ', 'EXP', 'LJ', 'WCA') for v in sp['pot'].values())
+            mech = None
+            if (c_ is None) != (b_ is None):
+                mech, msg = 'exception', 'continued System -> %s, fresh System -> %s' % (ec_ or 'solved', eb_ or 'solved')
+            elif c_ is not None and sc_ and sb_:
+                for n in c_:
+                    with np.errstate(all='ignore'):
+                        e = float(np.nanmax(np.abs(c_[n] - b_[n])) / max(np.abs(b_[n]).max(), 1e-300)) if c_[n].shape == b_[n].shape else np.inf
+                    if not e <= 1e-6:
+                        mech, msg = n, '%s differs from a freshly built System with the same parameters (rel %.3g)' % (n, e)
+                        break
+            if mech is not None:
+                if cont_diam_edit and derived:
+                    ctx.violation('snapshot:continued-on-prism-sys:derived-potential-sigma-stale-after-diameter-edit',
+                                  '%s: a sweep continued on PRISM.sys after a diameter edit: %s' % (where, msg))
+                else:
+                    ctx.violation('snapshot:continued-on-prism-sys-differs-from-fresh:%s' % mech, '%s: a sweep continued on the System carried by the previous PRISM object (PRISM.sys): %s' % (where, msg))
+                    return
+            out = out[:2]
+        if follow:
+            cont = nxt
+            if cont is None:
+                cont_diam_edit = False
         (a, sa, ea), (b, sb, eb) = out
         if (a is None) != (b is None):
             ctx.violation('snapshot:reused-system-differs-from-fresh:exception', '%s: reused System -> %s, fresh System -> %s' % (where, ea or 'solved', eb or 'solved'))
